@@ -130,3 +130,46 @@ Proof.
   - repeat constructor.
   - eexists. split; [vm_compute; reflexivity|]. vm_compute. reflexivity.
 Qed.
+
+(* ------------------------------------------------------------------ round 4: negation applied directly to a builtin test *)
+From YP Require Import Term.Fast Unify.Fast Sem.NegBuiltin.
+
+(* \+ \+ G succeeds exactly when G has an answer, and delivers the state it was entered with *)
+Theorem C06_not_not_spec : forall (S : Type) (I : str -> list sterm -> S -> list S * bool) G s,
+  sem I (BNot (BNot G)) s = match opaque (sem I G s) with
+                            | (_ :: _, _) => ([s], FNorm)
+                            | ([], FNorm) => ([], FNorm)
+                            | ([], f) => ([], f)
+                            end.
+Proof. exact not_not_spec. Qed.
+Print Assumptions C06_not_not_spec.
+
+(* \+ (A \= B), for the builtin \= of the engine (neq_result is what SpecLemmas.neq_spec says `builtin` computes): one answer -
+   the UNCHANGED state - exactly when A and B unify ... *)
+Theorem C06_neg_neq_spec : forall (call : str -> list term -> st -> list st * bool) r s a b,
+  call (s_ "\=") [instA r a; instA r b] s = neq_result s (instA r a) (instA r b) ->
+  sem (leafA call) (BNot (BCall (s_ "\=") [a; b])) (r, s) =
+  match unify_fast ufuel (sto s) (instA r a) (instA r b) with
+  | UOk _ => ([(r, s)], FNorm)
+  | UFail => ([], FNorm)
+  | _ => ([], FErr)
+  end.
+Proof. exact neg_neq_spec. Qed.
+Print Assumptions C06_neg_neq_spec.
+
+(* ... whereas A = B delivers the state extended by the unifier: the two goals differ whenever the unifier binds something *)
+Theorem C06_neg_neq_is_not_eq : forall (call : str -> list term -> st -> list st * bool) r s a b s',
+  call (s_ "\=") [instA r a; instA r b] s = neq_result s (instA r a) (instA r b) ->
+  call (s_ "=") [instA r a; instA r b] s = unify_st s (instA r a) (instA r b) ->
+  unify_fast ufuel (sto s) (instA r a) (instA r b) = UOk s' -> s' <> sto s ->
+  sem (leafA call) (BNot (BCall (s_ "\=") [a; b])) (r, s) <> sem (leafA call) (BCall (s_ "=") [a; b]) (r, s).
+Proof. exact neg_neq_differs_from_eq. Qed.
+Print Assumptions C06_neg_neq_is_not_eq.
+
+(* non-vacuity: \+ X \= a with X unbound *)
+Example C06_neg_neq_nonvacuous :
+  let r := [(pyvar (d "X"), TVar 0)] in
+  let s := {| sto := []; nxt := 1 |} in
+  unify_fast ufuel (sto s) (instA r (SVar (d "X"))) (instA r (SAtom (d "a"))) = UOk [(0, TAtom (d "a"))]
+  /\ [(0, TAtom (d "a"))] <> sto s.
+Proof. exact neg_neq_nonvacuous. Qed.
